@@ -318,7 +318,8 @@ inductive Route (topo : Topo) (hd port : Nat) (data : List UInt8) : Nat → Pend
       topo.nodes[p.node]? = some nd → nd.slots[p.slot]? = some (net, smac) → frameLen p.pkt ≤ topo.mtu net →
       tapOwner topo net mac = some (hd, ndh, σ) →
       findBind ndh.binds p.pkt.hdr.dst (protoClass p.pkt.hdr.proto) = some .udp →
-      isWhole p.pkt.hdr = true → udpDemux ndh p.pkt = .app port data →
+      isWhole p.pkt.hdr = true → Elvis.Gen.ipv4BaseOctets ≤ p.pkt.hdr.totalLength →
+      udpDemux ndh p.pkt = .app port data →
       Route topo hd port data 0 p
   | forward (m : Nat) (p : Pending) (mac : Mac) (nd : Node) (net : NetId) (smac : Mac) (r : Nat) (ndr : Node)
       (σ : Slot) (e : RouteEntry) (loc : Addr) :
@@ -345,10 +346,11 @@ theorem emit_of {topo : Topo} {p : Pending} {mac : Mac} {nd : Node} {net : NetId
 theorem route_leads {topo : Topo} {hd port : Nat} {data : List UInt8} {m : Nat} {p : Pending}
     (h : Route topo hd port data m p) : m < p.pkt.hdr.ttl ∨ m = 0 → Leads topo hd port data p := by
   induction h with
-  | deliver p mac nd net smac ndh σ hfm hn hs hmtu ho hb hw hu =>
+  | deliver p mac nd net smac ndh σ hfm hn hs hmtu ho hb hw hlen hu =>
     intro _
     refine .last p mac _ ndh σ hfm (emit_of hn hs hmtu) ho ?_
-    simp [ipv4Demux, hb, hw, hu]
+    have a : ¬ p.pkt.hdr.totalLength < Elvis.Gen.ipv4BaseOctets := by omega
+    simp [ipv4Demux, ipv4DemuxParsed, headerRejected, a, hb, hw, hu]
   | forward m p mac nd net smac r ndr σ e loc hfm hn hs hmtu ho hb hw hsub hlen hoff hlk hloc _ ih =>
     intro hlt
     have h2 : 2 ≤ p.pkt.hdr.ttl := by omega
@@ -359,7 +361,8 @@ theorem route_leads {topo : Topo} {hd port : Nat} {data : List UInt8} {m : Nat} 
       have b : ¬ p.pkt.hdr.fragOffset > Elvis.Gen.ipv4FragmentOffsetMask := by omega
       simp [routerDemux, ttlKernel_ge2 h2, a, b, hlk, hloc, arpTarget, hsub]
     refine .hop p mac _ r ndr σ _ hfm (emit_of hn hs hmtu) ho ?_ (ih ?_)
-    · simp [ipv4Demux, hb, hw, hr]
+    · have a : ¬ p.pkt.hdr.totalLength < Elvis.Gen.ipv4BaseOctets := by omega
+      simp [ipv4Demux, ipv4DemuxParsed, headerRejected, a, hb, hw, hr]
     · left; simp only [Pkt.withTtl]; omega
 
 theorem cnt_zero_flight {k : Nat} {s : State} (h : ∀ f ∈ s.flight, f.pkt.tok ≠ k) : cntF k s = 0 :=
